@@ -235,10 +235,29 @@ func one(v Vec, kind string, cli bool) string {
 					n++
 				}
 			}
+			// another bug is the selected one (`git bug select`): commands given no bug fall back on it, a removal naming a bug
+			// never does
+			selected := ""
+			for _, name := range []string{"o1", "o2"} {
+				if e, ok := ents[name]; ok && has(v.Before.Lref, name) && selected == "" {
+					sel := exec.Command(gitbug, "bug", "select", e.id.String())
+					sel.Dir = dir
+					if out, err := sel.CombinedOutput(); err != nil {
+						return fmt.Sprintf("git-bug bug select failed: %v: %s", err, out)
+					}
+					selected = name
+				}
+			}
 			cmd := exec.Command(gitbug, "bug", "rm", T.id.String()[:n])
 			cmd.Dir = dir
 			if out, err := cmd.CombinedOutput(); err != nil {
 				return fmt.Sprintf("git-bug bug rm failed: %v: %s", err, out)
+			}
+			// once more: the prefix names nothing any more, the command has nothing to remove (and says so)
+			again := exec.Command(gitbug, "bug", "rm", T.id.String()[:n])
+			again.Dir = dir
+			if out, err := again.CombinedOutput(); err == nil {
+				return fmt.Sprintf("the second `git-bug bug rm` of the same prefix (selected bug: %q) reported a removal: %s", selected, out)
 			}
 			c, err = hx.OpenCache(repo)
 			if err != nil {
@@ -335,6 +354,10 @@ func one(v Vec, kind string, cli bool) string {
 			hx.Must(c.SetUserIdentity(ic))
 		}
 		_ = c.Close()
+		// another tool's section whose name begins like git-bug's own
+		if out, err := exec.Command("git", "-C", dir, "config", "git-bug-sync.interval", "5").CombinedOutput(); err != nil {
+			hx.Die("git config: %v %s", err, out)
+		}
 		cmd := exec.Command(gitbug, "wipe")
 		cmd.Dir = dir
 		if out, err := cmd.CombinedOutput(); err != nil {
@@ -356,7 +379,7 @@ func one(v Vec, kind string, cli bool) string {
 				return "wipe left configuration " + l
 			}
 		}
-		if !strings.Contains(string(out), "user.name=") {
+		if !strings.Contains(string(out), "user.name=") || !strings.Contains(string(out), "git-bug-sync.interval=5") {
 			return "wipe removed foreign configuration"
 		}
 		if _, err := os.Stat(filepath.Join(dir, ".git", "git-bug")); err == nil {
